@@ -44,10 +44,13 @@ C2LEAN_FNS = ["m_get_high_bit", "m_get_mode", "m_get_reserved", "m_get_resolutio
               "cellToChildrenSize", "makeDirectChild", "setH3Index",
               # calls that pass `&local` for a callee's out parameter; a local declared without initialiser becomes an
               # extra, universally quantified parameter `u_<name>` of the translation
-              "getDirectedEdgeOrigin", "isValidDirectedEdge", "maxFaceCount"]
+              "getDirectedEdgeOrigin", "isValidDirectedEdge", "maxFaceCount",
+              # an out pointer handed on to a callee in a return expression, file-scope const scalars, assert expansions
+              # (NEVER / ALWAYS: the failing branch is "undefined", so `_defined` theorems prove it unreachable)
+              "validateChildPos", "getNumCells", "maxGridDiskSize"]
 C2LEAN_UNROLL = {"_h3LeadingNonZeroDigit": 16, "_h3Rotate60ccw": 16, "_h3Rotate60cw": 16, "cellToParent": 16,
                  "_h3RotatePent60ccw": 16, "_h3RotatePent60cw": 16, "_ipow": 6, "setH3Index": 16}
-C2LEAN_FILES = ["h3Index.c", "coordijk.c", "baseCells.c", "mathExtensions.c", "directedEdge.c"]
+C2LEAN_FILES = ["h3Index.c", "coordijk.c", "baseCells.c", "mathExtensions.c", "directedEdge.c", "latLng.c", "algos.c"]
 
 
 def log(*a):
